@@ -134,6 +134,7 @@ def run(rep: vk.Report):
     # ---- real solves: objective_value within the enclosure of the objective at the reported values
     n_real = 60 if rep.tier == "quick" else 2500
     nums, nmeta = [], []
+    hist_count = {}
     from optyx.solution import SolverStatus
     for i in range(n_real):
         r = random.Random(rng.random())
@@ -154,19 +155,49 @@ def run(rep: vk.Report):
         (P.maximize if mx else P.minimize)(-obj if mx else obj)
         P.subject_to(x.sum() <= 4)
         meth = r.choice(["auto", "SLSQP", "trust-constr"]) if kind != "lp" else r.choice(["auto", "highs", "SLSQP"])
-        with warnings.catch_warnings():
-            warnings.simplefilter("ignore")
-            try:
-                sol = P.solve(method=meth)
-            except Exception:
+        # a short history on the same Problem: every solve's report is checked, not only the first
+        steps = ["solve"]
+        for _ in range(r.randint(0, 2)):
+            steps.append(r.choice(["flip_same_object", "flip_same_object", "resolve", "new_objective_same_sense", "add_constraint"]))
+        cur_mx = mx
+        for step in steps:
+            if step == "flip_same_object":
+                cur_mx = not cur_mx
+                (P.maximize if cur_mx else P.minimize)(P.objective)      # bounded either way: every variable is boxed
+            elif step == "new_objective_same_sense":
+                nobj = ((x - 0.25) ** 2).sum() * (-1 if cur_mx else 1) + r.choice([1, -3])
+                (P.maximize if cur_mx else P.minimize)(nobj)
+            elif step == "add_constraint":
+                P.subject_to(x[0] <= 2.5)
+            with warnings.catch_warnings():
+                warnings.simplefilter("ignore")
+                try:
+                    sol = P.solve(method=meth)
+                except Exception:
+                    break
+            hist_count[step] = hist_count.get(step, 0) + 1
+            if sol.objective_value is None or not sol.values or not np.isfinite(sol.objective_value):
                 continue
-        if sol.objective_value is None or not sol.values or not np.isfinite(sol.objective_value):
-            continue
-        S = ser.Ser()
-        te = S.expr(P.objective)
-        nums.append(f"({te}, {common.pts_term(sol.values)}, [], [{ser.q(sol.objective_value)}])")
-        nmeta.append({"kind": kind, "maximize": mx, "method": meth, "status": sol.status.value, "objective_value": sol.objective_value,
-                      "values": sol.values, "recomputed": common.fval(P.objective.evaluate(sol.values))})
+            S = ser.Ser()
+            te = S.expr(P.objective)
+            nums.append(f"({te}, {common.pts_term(sol.values)}, [], [{ser.q(sol.objective_value)}])")
+            nmeta.append({"kind": kind, "maximize": cur_mx, "method": meth, "status": sol.status.value, "objective_value": sol.objective_value,
+                          "history": steps[:steps.index(step) + 1] if steps.count(step) == 1 else list(steps), "values": sol.values,
+                          "recomputed": common.fval(P.objective.evaluate(sol.values))})
+            # orientation: the reported point must not be worse than the box centre / corners for the CURRENT sense (catches a stale sign)
+            if sol.status == SolverStatus.OPTIMAL and kind != "nlp":
+                probes = [{v.name: c for v in P.variables} for c in (-2.0, 0.0, 0.5, 1.0)]
+                feas = [pt for pt in probes if all(cn.is_satisfied(pt) for cn in P.constraints)]
+                for pt in feas:
+                    fv = common.fval(P.objective.evaluate(pt))
+                    if fv is None:
+                        continue
+                    worse = (fv > sol.objective_value + 5e-3 * (1 + abs(fv))) if cur_mx else (fv < sol.objective_value - 5e-3 * (1 + abs(fv)))
+                    if worse:
+                        rep.violation({"kind": "orientation", "obligation": "an OPTIMAL report is at least as good, in the problem's CURRENT sense, as any feasible probe point",
+                                       "witness": {"objective": repr(P.objective)[:300], "maximize": cur_mx, "method": meth, "history": list(steps),
+                                                   "reported": sol.objective_value, "probe": pt, "probe_value": fv}}, concrete=True)
+                        break
     nfails, nund = common.run_classify("SemI HarnessI", "", common.NUM_TYPE, nums, common.NUM_CHECKER) if nums else ([], [])
     for i in nfails:
         rep.violation({"kind": "numeric", "obligation": "objective_value = objective evaluated at the reported values",
@@ -181,6 +212,7 @@ def run(rep: vk.Report):
     cov["stub_cases"] = len(cases.terms)
     cov["handles_checked"] = sum(m["handles"] for m in cases.meta)
     cov["real_solves"] = len(nums)
+    cov["history_steps"] = hist_count
     cov["real_undecided"] = len(nund)
     cov["correspondence_failures"] = len(fails) + len(nfails)
     cov["traces_validated_against_impl"] = len(cases.terms) + len(nums) - len(nund)
